@@ -1,4 +1,3 @@
-import QcoVerif.Lemmas.BuilderSrc
 import QcoVerif.Properties.C02
 import QcoVerif.Lemmas.FlattenIdem
 /-
@@ -397,24 +396,5 @@ theorem flatten_twice_link_ids_witness :
   rw [e2] at root
   exact ⟨hc, htop, hsingle, hwf, hmem, e1, root⟩
 
-
-/-! ### tie to the SOURCE TEXT of the builder (DESIGN.md §2.3b; proofs in Lemmas/BuilderSrc.lean)
-
-`apply_flatten_to_self`.  The functions act on objects: the fragment records such effects (`Py.callEffects`) instead of executing them. -/
-
-section BuilderSourceTie
-open Qco.Py Qco.Gen.PySrc Qco.BuilderSrc
-
-/-- **`apply_flatten_to_self`**: a fresh graph, `add_to_graph` of every listed operation in order, then the fresh graph replaces the old one — `World.flatten`. -/
-theorem flatten_matches_source (ops : List Nat) :
-    callEffects builderEnv Composite_flatten
-        [.obj "CircuitCompositeOperation" 1 [("decomposed_operations()", .list (ops.map plainOp))]] =
-      ops.map (fun n => Val.tuple [.str "call", .none, .str "CircuitGraphBranch.add_to_graph",
-                 .tuple [.str "graph", .tuple [.str "CircuitGraphBranch"]], .tuple [.str "operation", plainOp n]]) ++
-      [Val.tuple [.str "setattr", .obj "CircuitCompositeOperation" 1 [("decomposed_operations()", .list (ops.map plainOp))],
-                  .str "_circuit_graph", .tuple [.str "CircuitGraphBranch"]]] :=
-  BuilderSrc.flatten_matches_source ops
-
-end BuilderSourceTie
 
 end Qco.C11
